@@ -36,7 +36,10 @@ def run(ctx):
     fails = []
     for c in e2e:
         fails += fs.collected_rows_failures(c)
-    r5 = {"evaluations": len(e2e), "distinct_nontrivial": sum(1 for c in e2e if c["n"] >= 2), "failures": fails,
+    # Config objects reused on another table / edited in place between runs (stale grouping of the calls by context)
+    n_re, f_re = fs.object_reuse_failures(rng, 40 if tier == "quick" else 400)
+    fails += f_re
+    r5 = {"evaluations": len(e2e) + n_re, "distinct_nontrivial": sum(1 for c in e2e if c["n"] >= 2), "failures": fails,
           "errors": [], "samples": [], "distribution": {"end_to_end_stream_runs": len(e2e)}}
     return adapters.merge(
         out + [r3, r4, r5],
